@@ -29,9 +29,13 @@ pub async fn handle_did_open_text_document(
     let (uri, session) = state.uri_and_session_from_workspace(&params.text_document.uri)?;
     state.documents.handle_open_file(&uri).await;
 
-    send_new_compilation_request(state, session.clone(), &uri, None, false, sync_workspace);
+    // Mark compilation as in progress before queueing the request so that `wait_for_parsing`
+    // waits even if the compilation thread has not picked the request up yet. Storing the flag
+    // after sending could overwrite the `false` written by the compilation thread once it has
+    // already finished this request, leaving the flag stuck at `true`.
     verif_point!("o_ic_store");
     state.is_compiling.store(true, Ordering::SeqCst);
+    send_new_compilation_request(state, session.clone(), &uri, None, false, sync_workspace);
     state.wait_for_parsing().await;
     state
         .publish_diagnostics(uri, params.text_document.uri, session)
